@@ -4,7 +4,7 @@
 (* set of walks from the initial state covering every edge; the harness      *)
 (* replays them on the real Session (spec -> implementation direction).      *)
 EXTENDS Session, Json
-CONSTANTS MaxDrops, Faults, Modes, BadRpc, MaxPush, DropHolding
+CONSTANTS MaxDrops, Faults, Modes, BadRpc, MaxPush, DropHolding, WithClose
 VARIABLES st, cmd
 vars == <<st, cmd>>
 View == st
@@ -20,6 +20,8 @@ Next ==
   \/ /\ CallerCanStep(st) /\ st' = RunCaller(st) /\ cmd' = [c |-> "pollc"]
   \/ \E good \in BOOLEAN : /\ CanStartRpc(st) /\ (good \/ BadRpc)
                            /\ st' = RunCaller(StartRpc(st, good)) /\ cmd' = [c |-> "rpc", good |-> good]
+  \/ /\ WithClose /\ CanStartRpc(st) /\ st.lastId >= 1
+     /\ st' = RunCaller(StartClose(st)) /\ cmd' = [c |-> "rpc", good |-> TRUE, close |-> TRUE]
   \/ \E i \in Id : /\ CanPush /\ CanReply(st, i) /\ st' = Reply(st, i) /\ cmd' = [c |-> "reply", id |-> i]
   \/ \E i \in Id : /\ Faults /\ CanPush /\ CanDup(st, i) /\ st' = Dup(st, i) /\ cmd' = [c |-> "dup", id |-> i]
   \/ \E i \in 1..(N+1) : /\ Faults /\ CanPush /\ CanStray(st, i) /\ st' = Stray(st, i)
